@@ -76,7 +76,7 @@ def corpus():
 
 
 def generate(rng, tier):
-    n = 2000 if tier == "quick" else 100000
+    n = 6000 if tier == "quick" else 100000
     return [gen_one(rng) for _ in range(n)]
 
 
